@@ -459,6 +459,17 @@ theorem evm_create_program_as_modelled (h : CallHdr N) (callee : St N → Outcom
   · rcases hc : callee (s.enter h) with ⟨o, s1, g1⟩
     cases o <;> simp [execC, stepC, hf, hc]
 
+/-- CREATE2 (round 5: salted constructors are part of the generated programs): the fork's two entry points of contract
+creation — `(*EVM).Create` (opCreate) and `(*EVM).Create2` (opCreate2), regenerated from the module cache — are exactly the
+reviewed ones: each computes the new contract's address (nonce-derived / salted hash of the init code) and then, as its
+LAST statement, returns whatever `evm.create` returns, calling no StateDB method before that except the nonce read of
+`Create`.  So a CREATE2 frame runs the very program `progCreate` of `evm_create_program_as_modelled` — same balance check,
+Snapshot, endowment Transfer, init code, RevertToSnapshot — and only the address differs; a fork that gave `Create2` its
+own snapshot handling (or touched the StateDB before handing over) breaks this obligation -/
+theorem create2_runs_the_create_program :
+    createEntries = reviewedCreateEntries ∧ createEntries.all createEntryOk = true ∧
+    createEntries.map (·.1) = ["Create", "Create2"] ∧ createEntries.map (·.2.2.2.1) = ["CREATE", "CREATE2"] := by decide
+
 /-- the frame model's `resolve` = the caller's side (`post`) applied to what `evm.Call` returned -/
 theorem resolve_is_post_of_fork_call (h : CallHdr N) (callee : St N → Outcome × St N × Nat) (s : St N) (keep gas : Nat) :
     resolve h s.journal.length keep (if h.unfunded s.native then (.revert, s, gas) else callee (s.enter h)) =
